@@ -136,6 +136,7 @@ int main(int argc, char **argv)
             /* ---- coverage */
             vh_count(dc == 0 ? "depth_0_3" : dc == 1 ? "depth_9_11" : dc == 2 ? "depth_19_21" : dc == 3 ? "depth_39_41" : dc == 4 ? "depth_79_81" : dc == 5 ? "depth_159_161" : "depth_250_255", 1);
             if (lm.max_depth >= 250) vh_count("reached_depth_250_plus", 1);
+            vh_cov(vh_mix(0xDEE9, (uint64_t) lm.max_depth));             /* checks/c09.py looks these up: which maximum depths were reached */
             if (max_level >= 9) vh_count("include_chain_9_plus", 1);
             if (max_level >= 19) vh_count("include_chain_19_plus", 1);
             vh_count("unknown_begins", lm.unknown_begins); vh_count("surplus_ends", lm.surplus_ends); vh_count("includes", lm.includes);
